@@ -1,0 +1,28 @@
+//go:build verif
+
+package directive
+
+// VerifKeywordCoords returns the file name and the [begin, end] byte span of the directive's keyword.
+func (d Directive) VerifKeywordCoords() (file string, begin, end uint) {
+	if d.keywordCoords.file != nil {
+		file = d.keywordCoords.file.Name()
+	}
+	return file, uint(d.keywordCoords.begin), uint(d.keywordCoords.end)
+}
+
+// VerifBodyCoords returns the file name and the [begin, end] byte span of the directive's body, if set.
+func (d Directive) VerifBodyCoords() (file string, begin, end uint, set bool) {
+	if !d.BodyCoords.IsSet() {
+		return "", 0, 0, false
+	}
+	return d.BodyCoords.file.Name(), uint(d.BodyCoords.begin), uint(d.BodyCoords.end), true
+}
+
+// VerifNamedParameters returns a copy of the named parameters.
+func (d Directive) VerifNamedParameters() map[string]string {
+	m := make(map[string]string, len(d.namedParameters))
+	for k, v := range d.namedParameters {
+		m[k] = v
+	}
+	return m
+}
